@@ -67,6 +67,20 @@ let () =
         if !failed >= 0 || not !opened then Printf.printf "E %d\n" !failed
         else Printf.printf "ok %s %s %s\n" (hexstr (pcf_text !pcf))
             (match prf_close !prf with Ok t -> hexstr t | Err _ -> "rowerr") (hexstr (prv_close !prv))
+      | ["BD"; model; n; tvals; steps] ->
+        (* breakdown trace (coq/Emu/PvBreakdownDefs.v bd_emulate): model, number of physical CPUs, task values gid:hexlabel,...
+           and the steps  time;input=value,input=value|time;...  (clock relative to the first event, changes of the sort inputs) *)
+        let cfg = if model = "nosv" then bd_nosv else bd_nanos6 in
+        let split c s = if s = "-" || s = "" then [] else String.split_on_char c s in
+        let tv = List.map (fun kv -> match String.split_on_char ':' kv with
+            | [v; l] -> (zi v, bytes_of_hex l) | _ -> failwith "bad task value") (split ',' tvals) in
+        let st = List.map (fun s -> match String.split_on_char ';' s with
+            | [t; ch] -> (zi t, List.map (fun iv -> match String.split_on_char '=' iv with
+                | [i; v] -> (ni i, VInt (zi v)) | _ -> failwith "bad change") (split ',' ch))
+            | _ -> failwith "bad step") (split '|' steps) in
+        (match bd_emulate cfg (ni n) tv st with
+         | Err e -> Printf.printf "bd err %d\n" (int_of_nat e)
+         | Ok f -> Printf.printf "bd ok %s %s %s\n" (hexstr f.f_prv) (hexstr f.f_pcf) (hexstr f.f_row))
       | ["end"] ->
         let nth = List.length !threads in
         (match merge_threads (List.init nth (fun g -> List.map snd (List.filter (fun (t, _) -> t = g) (List.rev !mdefs)))) with
